@@ -13,7 +13,7 @@ correspondence check `harness/c11.py`, which performs real TLS handshakes.
 What is decided here is the DECISION LOGIC and the DATA FLOW.  OpenSSL — the
 handshakes, X.509 path and name validation, record protection, and what the
 `openssl` CLI does with an argv — is a parameter (`Env.handshake`,
-`Env.clientWrap`, `Env.cmd`) and is trusted.  In that sense the slice is
+`Env.clientWrap`, `Env.cmd`) and is trusted; so is `ipaddress.ip_address` (`Env.isIp`).  In that sense the slice is
 **partial**; see `C11_property_partial` for the full statement and what is missing.
 -/
 namespace Px.Intercept
@@ -103,11 +103,12 @@ theorem C11_order (cfg : Cfg) (answers : List (Option Bool)) (env : Env) (host :
   · exact ⟨[], (onConnect_fail cfg answers env host hon hh).1, by simp, fun _ => rfl⟩
 
 /-- **C11 verification settings.**  The upstream TLS context is configured with:
-`server_hostname` = the CONNECT host, the configured `--ca-file` as trust store,
+`server_hostname` = the CONNECT host without the brackets of an IPv6 literal (so that
+OpenSSL matches the bare address against `iPAddress` entries), the configured `--ca-file` as trust store,
 `CERT_NONE` iff `--insecure-tls-interception` (else `CERT_REQUIRED`), and
 `check_hostname` iff not insecure (the host name is always given). -/
 theorem C11_verify_settings (cfg : Cfg) (host : Str) :
-    (upstreamParams cfg host).serverHostname = some host ∧
+    (upstreamParams cfg host).serverHostname = some (stripBrackets host) ∧
     (upstreamParams cfg host).caFile = cfg.caFile ∧
     ((upstreamParams cfg host).verifyNone = true ↔ cfg.insecure = true) ∧
     ((upstreamParams cfg host).checkHostname = true ↔ cfg.insecure = false) := by
@@ -239,19 +240,50 @@ theorem C11_bad_upstream_closes (k : Relay.Kind) (t : Tick) (n : Nat)
 
 /-! ## the leaf: names exactly the CONNECT host; the cache -/
 
-/-- what the ext-file of the signing call says: one line, one entry, `DNS:<host>` -/
-theorem C11_ext_file_bytes (host : Str) :
-    extConfig (some [host]) none = Gen.pkiSanHeader ++ (Gen.pkiSanEntryPrefix ++ host) ∧
-    sanEntries [host] = [(.dns, host)] := by
-  simp [extConfig, hasNames, sanLine, sanEntries, kindPrefix, join]
+/-- the entry prefixes `get_ext_config` writes are `DNS:` and `IP:` (re-proved against the constants
+observed in the code on every run) -/
+theorem C11_san_prefixes : Gen.pkiSanEntryPrefix = b "DNS:" ∧ Gen.pkiSanIpEntryPrefix = b "IP:" ∧
+    Gen.pkiSanHeader = b "\nsubjectAltName=" := by decide +kernel
+
+/-- what the ext-file of the signing call says: one line, one entry, for the bare host
+(brackets of an IPv6 literal removed), of the kind `ipaddress` assigns to it -/
+theorem C11_ext_file_bytes (isIp : Str → Bool) (name : Str) :
+    extConfig isIp (some [name]) none = Gen.pkiSanHeader ++ (kindPrefix (kindOf isIp name) ++ name) ∧
+    sanEntries isIp [name] = [(kindOf isIp name, name)] := by
+  simp [extConfig, hasNames, sanLine, sanEntries, join]
+
+/-- **C11 SAN, address literals.**  For a CONNECT target whose bare form is an address
+literal (`127.0.0.1`, `[::1]` → `::1`) the signing ext-file is exactly
+`subjectAltName=IP:<bare address>` — the entry kind a verifying client needs. -/
+theorem C11_san_ip_literal (isIp : Str → Bool) (host : Str) (h : isIp (stripBrackets host) = true) :
+    extConfig isIp (some [stripBrackets host]) none = b "\nsubjectAltName=" ++ (b "IP:" ++ stripBrackets host) := by
+  obtain ⟨h1, h2, h3⟩ := C11_san_prefixes
+  rw [(C11_ext_file_bytes isIp _).1, h3]
+  simp [kindOf, h, kindPrefix, h2]
+
+/-- **C11 SAN, names.**  Otherwise it is exactly `subjectAltName=DNS:<host>`. -/
+theorem C11_san_dns_name (isIp : Str → Bool) (host : Str) (h : isIp (stripBrackets host) = false) :
+    extConfig isIp (some [stripBrackets host]) none = b "\nsubjectAltName=" ++ (b "DNS:" ++ stripBrackets host) := by
+  obtain ⟨h1, h2, h3⟩ := C11_san_prefixes
+  rw [(C11_ext_file_bytes isIp _).1, h3]
+  simp [kindOf, h, kindPrefix, h1]
+
+/-- concrete instances (formerly the witnesses of finding D16): `127.0.0.1` and `[::1]` -/
+theorem C11_ip_literal_examples :
+    extConfig (fun n => n == b "127.0.0.1") (some [stripBrackets (b "127.0.0.1")]) none =
+      b "\nsubjectAltName=IP:127.0.0.1" ∧
+    extConfig (fun n => n == b "::1") (some [stripBrackets (b "[::1]")]) none = b "\nsubjectAltName=IP:::1" ∧
+    extConfig (fun _ => false) (some [stripBrackets (b "example.org")]) none =
+      b "\nsubjectAltName=DNS:example.org" := by decide +kernel
 
 /-- **C11 SAN and cache.**  Whatever the configuration, answers, cache state and
 OpenSSL outcomes:
 1. every openssl invocation made while handling the CONNECT is one of the three
    invocations of `gen_ca_signed_certificate` for *this* host (`IsCertCall`): the
-   self-signed public-key certificate whose config names `[host]`, the CSR, and
-   the CA signature whose `-extfile` is exactly `subjectAltName=DNS:<host>` and whose
-   `-out` is the cache path of the host;
+   self-signed public-key certificate whose config names the bare host, the CSR, and
+   the CA signature whose `-extfile` is exactly one `subjectAltName` entry for the bare
+   host (`IP:` for an address literal, `DNS:` otherwise — `C11_san_ip_literal`,
+   `C11_san_dns_name`) and whose `-out` is the cache path of the host;
 2. the certificate handed to the client-side wrap is `join(ca_cert_dir, host + '.pem')`
    with the signing key — a function of the directory and the host only (not of the
    `Host` header, the cache state, the answers or the insecure switch);
@@ -264,14 +296,16 @@ theorem C11_san (cfg : Cfg) (answers : List (Option Bool)) (env : Env) (host : S
     (∀ c o, Eff.openssl c o ∈ r.1 → IsCertCall cfg env host c) ∧
     (∀ k c pend o, Eff.wrapClient k c pend o ∈ r.1 → c = crt ∧ k = cfg.caSigningKeyFile.getD [] ∧ crt ∈ r.2.fs) ∧
     (crt ∈ env.fs → ∀ e ∈ r.1, e.isOpenssl = false) ∧
-    (∀ tmp, (signCall cfg env host tmp).file = some (tmp, Gen.pkiSanHeader ++ (Gen.pkiSanEntryPrefix ++ host)) ∧
+    (∀ tmp, (signCall cfg env host tmp).file = some (tmp, Gen.pkiSanHeader ++
+              (kindPrefix (kindOf env.isIp (stripBrackets host)) ++ stripBrackets host)) ∧
             (signCall cfg env host tmp).out = crt ∧
-            (pubCall cfg env host tmp).file = some (tmp, sslConfig (some [host]) none)) := by
+            (pubCall cfg env host tmp).file = some (tmp, sslConfig env.isIp (some [stripBrackets host]) none)) := by
   simp only
-  have hlast : ∀ tmp, (signCall cfg env host tmp).file = some (tmp, Gen.pkiSanHeader ++ (Gen.pkiSanEntryPrefix ++ host)) ∧
+  have hlast : ∀ tmp, (signCall cfg env host tmp).file = some (tmp, Gen.pkiSanHeader ++
+        (kindPrefix (kindOf env.isIp (stripBrackets host)) ++ stripBrackets host)) ∧
       (signCall cfg env host tmp).out = certFilePath (cfg.caCertDir.getD []) host ∧
-      (pubCall cfg env host tmp).file = some (tmp, sslConfig (some [host]) none) := by
-    intro tmp; exact ⟨by simp [signCall, signCsr, (C11_ext_file_bytes host).1], rfl, rfl⟩
+      (pubCall cfg env host tmp).file = some (tmp, sslConfig env.isIp (some [stripBrackets host]) none) := by
+    intro tmp; exact ⟨by simp [signCall, signCsr, (C11_ext_file_bytes env.isIp _).1], rfl, rfl⟩
   -- a generation-or-wrap effect of the log is an effect of `wrap_client()`, which ran after a good upstream handshake
   have hwc : ∀ e ∈ (onConnect cfg answers env host).1, e.isGen = true →
       e ∈ (wrapClient cfg env host).1 ∧ (onConnect cfg answers env host).2 = (wrapClient cfg env host).2 := by
@@ -391,43 +425,31 @@ theorem C11_inner_requests (cfg : Cfg) (answers : List (Option Bool)) (env : Env
     rw [onConnect_off cfg answers env host hoff] at hres
     cases hres
 
-/-! ## known findings: witnesses -/
+/-! ## IPv6 literal targets (formerly finding D16b) -/
 
-/-- **D16 (general form).**  For an IP-literal CONNECT target the kind of entry a
-verifying client needs (`iPAddress`) is never among the entries written: they are
-all `dNSName`. -/
-theorem C11_D16_general (host : Str) (h : isIpLiteral host = true) :
-    ∀ e ∈ sanEntries [host], e.1 ≠ neededKind host := by
-  intro e he
-  simp only [sanEntries, List.map_cons, List.map_nil, List.mem_singleton] at he
-  subst he
-  simp [neededKind, h]
-
-/-- **D16 witness.**  `CONNECT 127.0.0.1:443`: the signing ext-file is
-`subjectAltName=DNS:127.0.0.1`; a verifying client needs `IP:127.0.0.1`. -/
-theorem C11_witness_D16 :
-    isIpLiteral (b "127.0.0.1") = true ∧ neededKind (b "127.0.0.1") = .ip ∧
-    sanEntries [b "127.0.0.1"] = [(.dns, b "127.0.0.1")] ∧
-    extConfig (some [b "127.0.0.1"]) none = b "\nsubjectAltName=DNS:127.0.0.1" := by
-  decide +kernel
-
-/-- **D16b witness.**  `CONNECT [::1]:443` with verification on: the reference name
-handed to OpenSSL keeps its brackets, so under the reference verdict (a certificate
-for the bare address never matches a bracketed name) even a CA-trusted origin is
-refused and the connection is torn down. -/
-theorem C11_witness_D16b (cfg : Cfg) (env : Env)
+/-- **C11 IPv6 literal verified against the bare address.**  `CONNECT [::1]:443`: the
+reference name handed to OpenSSL is `::1`; under the reference verdict a CA-trusted
+origin whose certificate names the address is accepted with verification on, the
+connection is *not* torn down by `wrap_server`, and the leaf asked for carries
+`IP:::1`. -/
+theorem C11_ipv6_literal_verified_bare (cfg : Cfg) (env : Env)
     (hen : cfg.enabled = true) (hsec : cfg.insecure = false)
     (hssl : env.handshake = refHandshake .trusted) :
-    (upstreamParams cfg (b "[::1]")).serverHostname = some (b "[::1]") ∧
-    isBracketed (b "[::1]") = true ∧
-    (onConnect cfg [] env (b "[::1]")).2.res = .teardown := by
+    (upstreamParams cfg (b "[::1]")).serverHostname = some (b "::1") ∧
+    env.handshake (upstreamParams cfg (b "[::1]")) = .ok ∧
+    (onConnect cfg [] env (b "[::1]")) =
+      (.queueClient ack :: .wrapUpstream (upstreamParams cfg (b "[::1]")) .ok :: (wrapClient cfg env (b "[::1]")).1,
+       (wrapClient cfg env (b "[::1]")).2) := by
   have hon : (tlsInterceptEnabled cfg []).1 = true := by
     simp [tlsInterceptEnabled, hen, chainAux, isTrue]
-  have hbad : env.handshake (upstreamParams cfg (b "[::1]")) = .certVerification := by
+  have hs : stripBrackets (b "[::1]") = b "::1" := by decide +kernel
+  have hb : isBracketed (b "::1") = false := by decide +kernel
+  have hok : env.handshake (upstreamParams cfg (b "[::1]")) = .ok := by
     rw [hssl]
-    have : isBracketed (b "[::1]") = true := by decide +kernel
-    simp [refHandshake, upstreamParams, serverWrapParams, hsec, chainOk, nameOk, this]
-  exact ⟨rfl, by decide +kernel, (C11_no_relay_on_bad_upstream_log cfg [] env (b "[::1]") hon (Or.inl hbad)).1⟩
+    simp [refHandshake, upstreamParams, serverWrapParams, hsec, chainOk, nameOk, hs, hb]
+  refine ⟨by simp [upstreamParams, serverWrapParams, hs], hok, ?_⟩
+  rw [onConnect_ok cfg [] env (b "[::1]") hon hok]
+  simp [tlsInterceptEnabled, hen, chainAux]
 
 /-! ## non-vacuity -/
 
@@ -487,8 +509,10 @@ Missing (trusted / delegated): that OpenSSL's verdict is the X.509 / RFC 6125 on
 that the `openssl` CLI turns the argv and ext-file into a certificate with that SAN
 signed by the CA key (parameters `Env.handshake`, `Env.cmd`; exercised with real
 handshakes by the correspondence runs); record protection; the C02 semantics of the
-inner requests (C02/C04's models); and the known findings D16 (IP-literal targets get
-a `DNS:` entry) and D16b (IPv6 literals are verified against the bracketed name). -/
+inner requests (C02/C04's models); which names are address literals is the parameter
+`Env.isIp` (the `ipaddress` module).  The former findings D16 / D16b (IP-literal targets)
+are fixed in the code and are now positive theorems (`C11_san_ip_literal`,
+`C11_ipv6_literal_verified_bare`). -/
 theorem C11_property_partial (cfg : Cfg) (answers : List (Option Bool)) (env : Env) (host : Str) (maxSend : Nat) :
     -- interception on: upstream verified with the operator's settings first, leaf for exactly this host after
     ((tlsInterceptEnabled cfg answers).1 = true →
@@ -498,7 +522,8 @@ theorem C11_property_partial (cfg : Cfg) (answers : List (Option Bool)) (env : E
           (∀ e ∈ rest, e.isGen = true) ∧ (env.handshake (upstreamParams cfg host) ≠ .ok → rest = [])) ∧
       ((upstreamParams cfg host).verifyNone = true ↔ cfg.insecure = true) ∧
       ((upstreamParams cfg host).checkHostname = true ↔ cfg.insecure = false) ∧
-      (upstreamParams cfg host).serverHostname = some host ∧ (upstreamParams cfg host).caFile = cfg.caFile) ∧
+      (upstreamParams cfg host).serverHostname = some (stripBrackets host) ∧
+      (upstreamParams cfg host).caFile = cfg.caFile) ∧
     -- interception off / opted out: plain tunnel
     ((some false ∈ answers ∨ cfg.enabled = false) →
       (onConnect cfg answers env host).2.res = .plain ∧
